@@ -18,8 +18,8 @@ Import ListNotations.
 Record node := Node { n_val : nat; n_live : bool; n_next : nat }.
 Record qshared := QS { q_nodes : list node; q_head : nat; q_tail : nat }.
 
-Record iter := Iter { it_node : nat; it_has : bool; it_val : nat; it_last : nat }.
-Definition iter0 : iter := Iter 0 false 0 0.
+Record qiter := Iter { it_node : nat; it_has : bool; it_val : nat; it_last : nat }.
+Definition qiter0 : qiter := Iter 0 false 0 0.
 
 Inductive qop := Offer (v : nat) | Poll | Peek | IsEmpty | Size | IterNew | HasNext | ItNext | Remove.
 Inductive qret := RUnit | RVal (v : nat) | RBool (b : bool) | RSize (n : N).
@@ -63,7 +63,7 @@ Inductive pc :=
 (* Iterator.Remove *)
 | RSet (l : nat).
 
-Record qlocal := QL { l_pc : pc; l_it : iter }.
+Record qlocal := QL { l_pc : pc; l_it : qiter }.
 
 Definition getn (s : qshared) (a : nat) : option node :=
   match a with O => None | S i => nth_error (q_nodes s) i end.
@@ -76,23 +76,23 @@ Definition setn (s : qshared) (a : nat) (n : node) : qshared :=
 
 Definition max_int32 : N := 2147483647%N.
 
-Definition qout := outcome qshared iter qlocal qret.
+Definition qout := outcome qshared qiter qlocal qret.
 
-Definition goto (it : iter) (p : pc) (s : qshared) : qout := Next (QL p it) s.
-Definition done (it : iter) (r : qret) (s : qshared) : qout := Done r it s.
+Definition goto (it : qiter) (p : pc) (s : qshared) : qout := Next (QL p it) s.
+Definition done (it : qiter) (r : qret) (s : qshared) : qout := Done r it s.
 
-Definition finish (it : iter) (k : cont) (s : qshared) : qout :=
+Definition finish (it : qiter) (k : cont) (s : qshared) : qout :=
   match k with
   | KRet r => done it r s
   | KSize p => goto it (ZItem p 0%N) s
   end.
 
 (* updateHead(h, x): the test h != x is private; the CAS is the next access *)
-Definition update_head (it : iter) (h x : nat) (k : cont) (s : qshared) : qout :=
+Definition update_head (it : qiter) (h x : nat) (k : cont) (s : qshared) : qout :=
   if Nat.eqb h x then finish it k s else goto it (UCasHead h x k) s.
 
 (* end of a scan at node p: found = p holds a live item *)
-Definition scan_end (it : iter) (k : skind) (h p : nat) (found : bool) (v : nat) (s : qshared) : qout :=
+Definition scan_end (it : qiter) (k : skind) (h p : nat) (found : bool) (v : nat) (s : qshared) : qout :=
   match k with
   | SKPeek => update_head it h p (KRet (RVal (if found then v else 0))) s
   | SKEmpty => update_head it h p (KRet (RBool (negb found))) s
@@ -101,13 +101,13 @@ Definition scan_end (it : iter) (k : skind) (h p : nat) (found : bool) (v : nat)
   end.
 
 (* the loop head of Iterator.Next with cursor p (val = value of the last node visited) *)
-Definition nloop (it : iter) (pred p val : nat) (s : qshared) : qout :=
+Definition nloop (it : qiter) (pred p val : nat) (s : qshared) : qout :=
   match p with
   | O => done (Iter 0 false val (it_last it)) (RVal (it_val it)) s
   | _ => goto it (NItem pred p) s
   end.
 
-Definition after_succ (it : iter) (pred p q val : nat) (s : qshared) : qout :=
+Definition after_succ (it : qiter) (pred p q val : nat) (s : qshared) : qout :=
   match q with
   | O => nloop it pred 0 val s
   | _ => goto it (NCas pred p q val) s
@@ -122,7 +122,7 @@ Definition qstep (l : qlocal) (s : qshared) : qout :=
   | Inv Peek => goto it (SHead SKPeek) s
   | Inv IsEmpty => goto it (SHead SKEmpty) s
   | Inv Size => goto it (SHead SKSize) s
-  | Inv IterNew => goto iter0 (SHead SKIter) s
+  | Inv IterNew => goto qiter0 (SHead SKIter) s
   | Inv HasNext => done it (RBool (it_has it)) s
   | Inv ItNext =>
       match it_node it with
@@ -288,12 +288,12 @@ Definition qstep (l : qlocal) (s : qshared) : qout :=
       end
   end.
 
-Definition qstart (ts : iter) (o : qop) : qlocal := QL (Inv o) ts.
+Definition qstart (ts : qiter) (o : qop) : qlocal := QL (Inv o) ts.
 
-Definition jdk : machine qshared iter qlocal qop qret :=
+Definition jdk : machine qshared qiter qlocal qop qret :=
   Machine qstart qstep (fun _ => false).
 
 Definition qinit : qshared := QS [Node 0 false 0] 1 1.
 
-Definition jdk_init (progs : list (list qop)) : config qshared iter qlocal qop :=
-  init qlocal qinit iter0 progs.
+Definition jdk_init (progs : list (list qop)) : config qshared qiter qlocal qop :=
+  init qlocal qinit qiter0 progs.
